@@ -171,7 +171,27 @@ def r12_4(ctx):
     ctx.run_rule("R12.4", "cache budget arithmetic and loop bounds", body, floor=3)
 
 
+def r12_5(ctx):
+    F = ctx.facts
+
+    def body(r):
+        from .c02 import marker_compile_stores_own
+        ok, why = marker_compile_stores_own(F)
+        r.ob("capture-regex:compile-stores-own-compile", ok, F.fn("marker::MarkerString::compile").site, why)
+        # new regexes built while the tree is reshaped start uncompiled (a compiled automaton must
+        # never be inherited by a regex with another pattern)
+        for name in ("new_leaf", "new_node"):
+            f = F.method(LAZY, name)
+            vals = set()
+            for p in Sym(f, copies=True).paths():
+                if p.end[0] == "ret" and p.end[1][0] == "agg":
+                    vals.add(dict(p.end[1][3]).get("compiled"))
+            r.ob("fresh-regex-uncompiled:%s" % name, vals == {("agg", "std::option::Option", "None", ())}, f.site, "LazyRegex::%s starts with compiled = %s" % (name, [show(v, f) for v in vals]))
+    ctx.run_rule("R12.5", "compiled automata belong to the pattern they were compiled from", body, floor=3)
+
+
 def run(ctx):
+    r12_5(ctx)
     r12_1(ctx)
     r12_2(ctx)
     r12_3(ctx)
